@@ -73,6 +73,28 @@ StrayCases == {[fam |-> "stray", tag |-> t, pre |-> p] : t \in StrayTags, p \in 
 StraySource(c) == IF c.tag = "dupblock" THEN <<W(c.pre), W("{% block a %}x{% endblock %}m{% block a %}y{% endblock %}z")>>
                   ELSE <<W("a"), W(c.pre), W("{% "), W(c.tag), W(" %}"), W("b{{ v }}c")>>
 
+\* family 7: literal text that some layer might take for something else -- a byte order mark, Unicode line / paragraph
+\* separators and spaces, format characters, non-characters, ill-formed UTF-8 -- at the very start of a template (main,
+\* included, parent, imported), of a block, a macro body, a verbatim body, and next to tags
+SpecialTexts == {<<65279>>, <<65279, 65279>>, <<65279, 97>>, <<97, 65279>>, <<8232>>, <<8233>>, <<133>>, <<160>>, <<12288>>, <<8203>>, <<173>>, <<65533>>, <<128512>>,
+                 <<65534>>, <<65535>>, <<0>>, <<13, 10>>, <<10, 13>>, <<11>>, <<12>>, <<127>>, <<27, 91, 48, 109>>, <<-239, -187>>, <<-192, -128>>, <<-237, -160, -128>>,
+                 <<-244, -144, -128, -128>>, <<-239, -187, -191, -239, -187, -191>>, <<35, 33>>, <<60, 63>>, <<37, 33>>}
+SpecialPlaces == {"only", "start", "incstart", "parentstart", "blockstart", "macrostart", "impstart", "aftercomment", "verb", "twice"}
+SpecialCases == {[fam |-> "special", t |-> t, pl |-> pl] : t \in SpecialTexts, pl \in SpecialPlaces}
+PV == PrintS(Var("v"))
+SpecialTp(c) ==
+    LET t == Text(c.t) IN
+    CASE c.pl = "only"  -> ("main" :> <<t>>)
+      [] c.pl = "start" -> ("main" :> <<t, PV, t>>)
+      [] c.pl = "twice" -> ("main" :> <<t, PV, t, PV, t, Set("z", LI(1)), t>>)
+      [] c.pl = "incstart" -> ("main" :> <<Text(<<91>>), Inc(LS(NT.t1)), Text(<<93>>)>>) @@ ("t1" :> <<t, PV>>)
+      [] c.pl = "parentstart" -> ("main" :> <<Extends(LS(NT.t2)), Block("b", <<t, Text(<<99>>)>>)>>) @@ ("t2" :> <<t, Block("b", <<>>), t>>)
+      [] c.pl = "blockstart" -> ("main" :> <<Block("b", <<t, PV>>), t>>)
+      [] c.pl = "macrostart" -> ("main" :> <<Macro("mm", <<Param("v")>>, <<t, PV>>), t, PrintS(Call("mm", <<Var("v")>>))>>)
+      [] c.pl = "impstart" -> ("main" :> <<Import(LS(NT.t1), "L"), t, PrintS(MCall("L", "mm", <<>>))>>) @@ ("t1" :> <<t, Macro("mm", <<>>, <<t>>)>>)
+      [] c.pl = "aftercomment" -> ("main" :> <<Comment(<<32, 99, 32>>), t, Comment(<<>>), t>>)
+      [] c.pl = "verb" -> ("main" :> <<Verbatim(c.t), t, Verbatim(c.t)>>)
+
 \* where a verbatim block stands: the body is inert everywhere
 VerbIn(c) ==
     LET vb == <<Verbatim(c.b)>> IN
@@ -120,9 +142,9 @@ CaseOfVerbTags(c) ==
      expect |-> [ok |-> TRUE, out |-> <<>>, noout |-> TRUE, err |-> "", calls |-> [id \in {"s1"} |-> 0],
                  always |-> [id \in {"s1"} |-> 0], absent |-> <<81, 90, 81>>]]
 
-Parts == {"around", "alone", "comment", "verbatim", "between", "stray"}
+Parts == {"around", "alone", "comment", "verbatim", "between", "stray", "special"}
 SetOf(p) == CASE p = "around" -> Around [] p = "alone" -> AloneC [] p = "comment" -> Comments
-              [] p = "verbatim" -> Verbs [] p = "between" -> Between [] p = "stray" -> StrayCases
+              [] p = "verbatim" -> Verbs [] p = "between" -> Between [] p = "stray" -> StrayCases [] p = "special" -> SpecialCases
 
 \* partitions: the big family is cut by tag kind and left literal so that TLC's workers share it
 Init == cs \in {[part |-> p, k |-> "", l |-> <<>>] : p \in Parts \ {"around"}}
@@ -130,13 +152,18 @@ Init == cs \in {[part |-> p, k |-> "", l |-> <<>>] : p \in Parts \ {"around"}}
 Next == "part" \in DOMAIN cs /\
         cs' \in (IF cs.part = "around"
                  THEN {c \in {[fam |-> "around", k |-> cs.k, l |-> cs.l, r |-> r] : r \in Strs(Alphabet, Side)} : Admissible(c)}
-                 ELSE {c \in SetOf(cs.part) : c.fam = "stray" \/ Admissible(c)})
+                 ELSE {c \in SetOf(cs.part) : c.fam \in {"stray", "special"} \/ Admissible(c)})
 Spec == Init /\ [][Next]_cs
 IsCase == "fam" \in DOMAIN cs
+CaseOfSpecial(c) ==
+    LET ref == Render(MkW(SpecialTp(c), {}, {}, NoFault), "main", Ctx) IN
+    [prop |-> "C04", key |-> ToJson(c), tags |-> {"fam:special", "pl:" \o c.pl}, entry |-> "main", ctx |-> Ctx,
+     runs |-> {[label |-> "special", tp |-> Sources(SpecialTp(c), LMin), xcalls |-> [id \in {} |-> 0]]},
+     expect |-> [ok |-> ref.ok, out |-> ref.out, err |-> ref.err, calls |-> [id \in {} |-> 0]]]
 CaseOfStray(c) ==
     [prop |-> "C04", key |-> ToJson(c), tags |-> {"fam:stray", "tag:" \o c.tag}, entry |-> "main", ctx |-> Ctx,
      runs |-> {[label |-> "stray", tp |-> ("main" :> StraySource(c)), xcalls |-> [id \in {} |-> 0]]},
      expect |-> [ok |-> FALSE, out |-> <<>>, err |-> "any", calls |-> [id \in {} |-> 0]]]
-Emit == IsCase => PrintT(ToJson(IF cs.fam = "stray" THEN CaseOfStray(cs) ELSE IF cs.fam = "verbatim" /\ cs.b \in HandVerb THEN CaseOfVerbTags(cs) ELSE CaseOf(cs)))
-ModelOK == (IsCase /\ cs.fam # "stray") => Ref(cs).ok
+Emit == IsCase => PrintT(ToJson(IF cs.fam = "stray" THEN CaseOfStray(cs) ELSE IF cs.fam = "special" THEN CaseOfSpecial(cs) ELSE IF cs.fam = "verbatim" /\ cs.b \in HandVerb THEN CaseOfVerbTags(cs) ELSE CaseOf(cs)))
+ModelOK == (IsCase /\ cs.fam \notin {"stray", "special"}) => Ref(cs).ok
 =============================================================================
